@@ -387,6 +387,11 @@ def path_programs(ctx, n_per=None):
     A, _B = families.iso_base()
     full += [a for a in A if a.get("name") in ("iso-SB-scfence", "iso-scfence-stale", "iso-scfence-3", "iso-statics",
                                                "iso-yield-while-others-blocked")]
+    # two thread-locals of one thread whose destructors perform loom operations (an RMW each, on two atomics another thread
+    # reads): the order in which they are destroyed is part of the execution and must be the same in every iteration and run
+    full.append(dsl.normalize({"threads": [[dsl.spawn(2), dsl.spawn(3), dsl.join(2), dsl.join(3)], [dsl.I("tlwith", "T0"), dsl.I("tlwith", "T1")],
+                                            [dsl.ld("tl0c", "sc"), dsl.ld("tl1c", "sc")]],
+                               "name": "tl-destructors-with-loom-operations", "atoms": ["tl0c", "tl1c"], "tags": ["c13only"]}))
     return full + pool[:max(0, n_per - len(full))]
 
 
@@ -470,6 +475,11 @@ def C13(ctx):
     # uninterrupted reference runs (twice: determinism)
     cfgU = {"want_paths": True, "want_seq": True, "iter_cap": 2500}
     U1 = core.run_loom(ctx, pool, cfg_of=lambda p: cfgU, tag="u1")
+    for p, r in zip(pool, U1):
+        # (the families' own checks decide failing programs; here only what loom itself cannot explain: an internal panic
+        # - e.g. a replayed iteration that does not follow its path - or an abort)
+        if r["end"] in ("other", "hang") or r["end"].startswith("abort"):
+            ctx.violation("unexpected-panic", p, r["end"], {"msg": r["msg"][:200], "iters": r["iters"]})
     base = [(p, r) for p, r in zip(pool, U1) if r["end"] == "ok" and 3 <= r["iters"] <= 2000]
     base = base[: (14 if ctx.tier == "quick" else 60)]
     progs = [p for p, _ in base]
